@@ -15,6 +15,8 @@ From Coq Require Import String Ascii.
 From Coq Require Import NArith ZArith List Bool.
 From PyIpmi Require Import Lib.Res Lib.Bytes.
 Import ListNotations.
+Open Scope string_scope.
+Open Scope list_scope.
 Open Scope N_scope.
 
 (* ---------------------------------------------------------------- ByteBuffer *)
